@@ -71,6 +71,9 @@ type Query {
   one(in: OneOfInput!): String
   time(t: Time, blobs: [Blob]): Time
   calc: Calc
+  shape: Shape
+  shapes: [Shape2!]
+  tagged: [Tagged]
   mapObj(in: MapIn, ins: [MapIn!]): MapObj
   "boundary literals as argument defaults; the harness echoes what the resolver receives"
   bounds(
@@ -234,6 +237,80 @@ type MapObj @goModel(model: "map[string]interface{}") {
   b: Int
   c: Time
   nested: Tag
+}
+
+"""
+Interface hierarchy whose SHARED fields cover every type shape (scalar, non-null, list of scalars,
+list of objects, list of interfaces, nullable / non-null object, enum, list of enums, nested list):
+Shape2 implements Shape (interface implements interface), Tagged is an unrelated interface that
+declares some of the same fields (diamond), the objects implement all of them.
+"""
+interface Shape {
+  sid: ID!
+  label: String
+  tags: [String!]!
+  opt: [Int]
+  kids: [ShapeItem!]
+  peers: [Shape!]
+  owner: ShapeItem
+  main: ShapeItem!
+  kind: Kind!
+  kinds: [Kind!]
+  matrix: [[Float!]]
+}
+
+interface Shape2 implements Shape {
+  sid: ID!
+  label: String
+  tags: [String!]!
+  opt: [Int]
+  kids: [ShapeItem!]
+  peers: [Shape!]
+  owner: ShapeItem
+  main: ShapeItem!
+  kind: Kind!
+  kinds: [Kind!]
+  matrix: [[Float!]]
+  extra: Int
+}
+
+interface Tagged {
+  tags: [String!]!
+  kids: [ShapeItem!]
+  owner: ShapeItem
+  kind: Kind!
+  kinds: [Kind!]
+  label: String
+}
+
+type ShapeItem implements Shape2 & Shape & Tagged {
+  sid: ID!
+  label: String
+  tags: [String!]!
+  opt: [Int]
+  kids: [ShapeItem!]
+  peers: [Shape!]
+  owner: ShapeItem
+  main: ShapeItem!
+  kind: Kind!
+  kinds: [Kind!]
+  matrix: [[Float!]]
+  extra: Int
+}
+
+type ShapeOther implements Shape & Tagged {
+  sid: ID!
+  label: String
+  tags: [String!]!
+  opt: [Int]
+  kids: [ShapeItem!]
+  peers: [Shape!]
+  owner: ShapeItem
+  main: ShapeItem!
+  kind: Kind!
+  kinds: [Kind!]
+  matrix: [[Float!]]
+  own: String
 }
 
 union Thing @onUnion = User | Post | Comment
